@@ -147,9 +147,8 @@ class Sum(Factory, Container):
 
         import numpy
 
-        selection = numpy.isnan(q)
-        numpy.bitwise_not(selection, selection)
-        numpy.bitwise_and(selection, weights > 0.0, selection)
+        # like fill(): a NaN quantity makes the sum NaN (it is not skipped)
+        selection = weights > 0.0
         q = q[selection]
         weights = weights[selection]
         q = q * weights
